@@ -462,18 +462,32 @@ def run_refuse(st):
     vals = list(st["vals"])
     kind, arg = st["kind"], st["arg"]
     k, kw = 2, {}
+
+    def num(a):
+        """the invalid value in the numeric type named by its prefix"""
+        if ":" in a:
+            typ, txt = a.split(":", 1)
+            if typ == "np64":
+                return np.float64(float(txt))
+            if typ == "np32":
+                return np.float32(float(txt))
+            if typ == "npi":
+                return np.int64(int(txt))
+            if typ == "frac":
+                return Fraction(txt)
+        return float(a) if "." in a else int(a)
     if kind == "k":
-        k = int(arg)
+        k = num(arg)
     elif kind == "neg":
         idx = {"first": [0], "last": [len(vals) - 1], "all": list(range(len(vals)))}[arg]
         for i in idx:
             vals[i] = -(vals[i] + 1)
     elif kind == "limit":
-        kw["time_limit"] = float(arg) if "." in arg else int(arg)
+        kw["time_limit"] = num(arg)
     elif kind == "bound":
-        kw["partition_difference"] = float(arg) if "." in arg else int(arg)
+        kw["partition_difference"] = num(arg)
     res = []
-    for fmt in ("list", "dict", "valueof"):
+    for fmt in ("list", "dict", "valueof", "array"):
         for ot in ("PartitionAndSumsTuple", "Sums"):
             items, valueof, back = present(vals, fmt)
             try:
@@ -636,7 +650,10 @@ def run_comb(st):
 
 
 # ------------------------------------------------------------------ C16: bins-manager histories
-_ITEMVAL = lambda it: 0 if it >= 100 else it
+def _ITEMVAL(it):
+    if it == 999:
+        raise KeyError(it)      # an item the value function does not know: additions of it must be rejected without any effect
+    return 0 if it >= 100 else it
 
 
 def _proj(binner, arr, contents):
@@ -671,6 +688,12 @@ def run_binner_hist(st):
                 ret = B.add_item_to_bin(live[a], op["it"], op["i"] - 1)
                 if ret is not live[a]:
                     live[a] = ret     # documented: returns the bins after the addition
+            elif o == "addbad":
+                try:
+                    B.add_item_to_bin(live[a], 999, op["i"] - 1)
+                    ev["out"] = "bad:item_without_value_accepted"
+                except KeyError:
+                    pass
             elif o == "copy":
                 live[b] = B.copy_bins(live[a])
             elif o == "sort":
